@@ -38,7 +38,7 @@ var defaultNoInit = []string{
 	"regexp", "encoding/json", "encoding/base64", "encoding/hex", "testing", "flag", "sync", "context", "text/",
 	"compress/", "hash/", "golang.org/x/", "github.com/gnolang/gno/tm2/pkg/amino", "github.com/gnolang/gno/tm2/pkg/telemetry",
 	"github.com/gnolang/gno/tm2/pkg/log", "go.opentelemetry.io", "google.golang.org", "github.com/rs/", "go.uber.org",
-	"math/rand", "unicode", "strconv", "database/", "html", "mime", "embed", "iter", "weak", "unique", "vendor/",
+	"math/rand", "unicode", "strconv", "errors", "database/", "html", "mime", "embed", "iter", "weak", "unique", "vendor/",
 	"github.com/btcsuite", "github.com/cosmos", "github.com/davecgh", "github.com/stretchr", "github.com/pmezard", "gopkg.in",
 	"github.com/gnolang/gno/tm2/pkg/crypto/ed25519", "github.com/gnolang/gno/tm2/pkg/crypto/secp256k1", "math/big",
 	"github.com/gnolang/gno/tm2/pkg/errors",
